@@ -646,6 +646,9 @@ class _SFileLock:
         self._real = filelock.FileLock(path, timeout=0)
         self._Timeout = filelock.Timeout
         self.path = path
+        self.held = False
+        self.owner: int | None = None
+        self._ino: tuple[int, int] | None = None
 
     def acquire(self, *a: Any, **k: Any) -> Any:
         while True:
@@ -657,16 +660,36 @@ class _SFileLock:
                     raise
                 continue  # blocking acquire: stays parked at the same point (stutter)
             ent = self._run.sched.current()
-            idx = self._run.proc_index(ent)
-            if self._run.holder is not None:
-                self._run.flock_double = (self._run.holder, idx)
-            self._run.holder = idx
+            self.owner = self._run.proc_index(ent)
+            self.held = True
+            self._ino = self._read_inode()  # in the acquiring thread: filelock keeps its descriptor thread-local
+            mine = self.inode()
+            for other in self._run.flocks:
+                if other is not self and other.held and other.inode() == mine:
+                    # two flocks on the SAME inode at once: the OS-level hypothesis of the launcher theorems is false
+                    self._run.flock_double = (other.owner, self.owner)
+            if self not in self._run.flocks:
+                self._run.flocks.append(self)
             return self
+
+    def inode(self) -> tuple[int, int] | None:
+        """(dev, ino) of the open file this lock object holds its flock on."""
+        return self._ino if self.held else None
+
+    def _read_inode(self) -> tuple[int, int] | None:
+        try:
+            fd = self._real._context.lock_file_fd
+        except AttributeError as e:
+            raise HarnessError("filelock internals changed: cannot read the held descriptor") from e
+        if fd is None:
+            return None
+        st = os.fstat(fd)
+        return (st.st_dev, st.st_ino)
 
     def release(self, force: bool = False) -> None:
         self._run.sched.park("release")
         self._real.release()
-        self._run.holder = None
+        self.held = False
 
 
 class _DummyServer:
@@ -692,7 +715,7 @@ class LauncherRun:
         self.sched = Sched()
         self.kinds = kinds
         self.workers: list[_Worker] = []
-        self.holder: int | None = None
+        self.flocks: list[_SFileLock] = []
         self.flock_double: tuple[Any, Any] | None = None
         self.ino_owner: dict[int, int] = {}
         self.returns: list[dict[str, Any]] = []
@@ -867,6 +890,17 @@ class LauncherRun:
                 return w
         return None
 
+    def lock_holder(self) -> int | None:
+        """Who holds a flock on the inode the per-hash lock PATH currently names (None: nobody / no such file)."""
+        try:
+            st = os.lstat(self.dir / f"{self.hash}.lock")
+        except FileNotFoundError:
+            return None
+        for fl in self.flocks:
+            if fl.held and fl.inode() == (st.st_dev, st.st_ino):
+                return fl.owner
+        return None
+
     def fs_owner(self) -> int | None:
         try:
             st = os.lstat(self.sock_path)
@@ -879,7 +913,8 @@ class LauncherRun:
 
     def obs(self) -> list[int]:
         fs = self.fs_owner()
-        out = [0 if self.holder is None else self.holder + 1, 0 if fs is None else fs + 1, int(self.meta_path.exists())]
+        holder = self.lock_holder()
+        out = [0 if holder is None else holder + 1, 0 if fs is None else fs + 1, int(self.meta_path.exists())]
         for i, (e, g) in enumerate(zip(self.procs, self.kinds)):
             table = _P_CODE_G if g else _P_CODE_L
             if e.label not in table:
@@ -923,15 +958,23 @@ def run_launcher(launcher_mod: Any, transport_mod: Any, kinds: list[bool], sched
     try:
         trace = []
         max_alive = 0
-        for a in schedule:
+        unreachable: list[dict[str, Any]] = []
+        for n, a in enumerate(schedule):
             run.step(a)
             trace.append(run.obs())
             max_alive = max(max_alive, sum(1 for w in run.workers if run.worker_alive(w)))
+            if not unreachable:
+                owner = run.fs_owner()
+                for w in run.workers:
+                    # bound-and-open listener (before listen / accepting / loop returned but not closed)
+                    if run.worker_phase(w) in (3, 4, 5) and owner != w.idx:
+                        unreachable.append({"step": n, "action": list(a), "worker": w.idx, "path_names_worker": owner})
         info = {
             "returns": [dict(r) for r in run.returns],
             "spawns": [dict(x) for x in run.spawn_log],
             "max_alive": max_alive,
             "flock_double": run.flock_double,
+            "live_unreachable": unreachable,
             "spawn_count": len(run.workers),
         }
         return trace, info
